@@ -67,7 +67,7 @@ end r3
 
 namespace so3
 theorem toMatrix_spec (x : Fin 3 → ℝ) : so3.toMatrix.M_mat x = hat x := by
-  mat_entries <;> simp [cas_defs, cas_real, hat]
+  mat_entries <;> simp [cas_defs, cas_real, hat] <;> (try ring1)
 theorem ad_bracket (x y : Fin 3 → ℝ) : (so3.ad.M_mat x).mulVec y = so3.bracket.r_vec x y := by
   funext i; fin_cases i <;> cas_mat <;> ring
 theorem bracket_comm (x y : Fin 3 → ℝ) :
@@ -166,9 +166,9 @@ theorem Ad_spec (a : Fin 4 → ℝ) : SO3Quat.Ad.M_mat a = qmat a := by
 theorem toMatrix_spec (a : Fin 4 → ℝ) : SO3Quat.toMatrix.M_mat a = qmat a := by
   mat_entries <;> simp [cas_defs, cas_real, qmat] <;> ring
 theorem product_spec (a b : Fin 4 → ℝ) : SO3Quat.product.r_vec a b = qmul a b := by
-  funext i; fin_cases i <;> simp [cas_defs, cas_real, qmul]
+  funext i; fin_cases i <;> simp [cas_defs, cas_real, qmul] <;> (try ring1)
 theorem inverse_spec (a : Fin 4 → ℝ) : SO3Quat.inverse.r_vec a = qconj a := by
-  funext i; fin_cases i <;> simp [cas_defs, cas_real, qconj]
+  funext i; fin_cases i <;> simp [cas_defs, cas_real, qconj] <;> (try ring1)
 theorem Ad_conj (a : Fin 4 → ℝ) (h : qnormSq a = 1) (y : Fin 3 → ℝ) :
     so3.toMatrix.M_mat ((SO3Quat.Ad.M_mat a).mulVec y) * SO3Quat.toMatrix.M_mat a
       = SO3Quat.toMatrix.M_mat a * so3.toMatrix.M_mat y := by
@@ -197,7 +197,7 @@ theorem product_spec (a b : Fin 3 → ℝ) : SO3Mrp.product.r_vec a b = mrpMul a
   funext i; fin_cases i <;>
     simp [cas_defs, cas_real, mrpMul, mrpNum, mrpDen, nsq, dot3, cross] <;> ring
 theorem inverse_spec (a : Fin 3 → ℝ) : SO3Mrp.inverse.r_vec a = -a := by
-  funext i; fin_cases i <;> simp [cas_defs, cas_real]
+  funext i; fin_cases i <;> simp [cas_defs, cas_real] <;> (try ring1)
 theorem Ad_conj (a y : Fin 3 → ℝ) :
     so3.toMatrix.M_mat ((SO3Mrp.Ad.M_mat a).mulVec y) * SO3Mrp.toMatrix.M_mat a
       = SO3Mrp.toMatrix.M_mat a * so3.toMatrix.M_mat y := by
@@ -213,7 +213,7 @@ end SO3Mrp
 
 namespace SO3Dcm
 theorem Ad_spec (a : Fin 9 → ℝ) : SO3Dcm.Ad.M_mat a = SO3Dcm.toMatrix.M_mat a := by
-  mat_entries <;> simp [cas_defs, cas_real]
+  mat_entries <;> simp [cas_defs, cas_real] <;> (try ring1)
 /-- for every orthonormal DCM of determinant one -/
 theorem Ad_conj (a : Fin 9 → ℝ)
     (ho : (SO3Dcm.toMatrix.M_mat a).transpose * SO3Dcm.toMatrix.M_mat a = 1)
@@ -251,7 +251,7 @@ theorem Ad_spec (a : Fin 7 → ℝ) : SE3Quat.Ad.M_mat a = se3AdMat (qmat (rot a
     simp [cas_defs, cas_real, se3AdMat, finSumFinEquiv, Fin.addCases, qmat, hat, rot, tr,
       Matrix.mul_apply, Fin.sum_univ_succ] <;> ring
 theorem product_rot (a b : Fin 7 → ℝ) : rot (SE3Quat.product.r_vec a b) = qmul (rot a) (rot b) := by
-  funext i; fin_cases i <;> simp [cas_defs, cas_real, rot, qmul]
+  funext i; fin_cases i <;> simp [cas_defs, cas_real, rot, qmul] <;> (try ring1)
 theorem product_tr (a b : Fin 7 → ℝ) :
     tr (SE3Quat.product.r_vec a b) = (qmat (rot a)).mulVec (tr b) + tr a := by
   funext i; fin_cases i <;>
